@@ -86,6 +86,9 @@ func c30Keys(wire []byte) (keys [][]byte, ok bool) {
 }
 
 func c30Bytes(r *rand.Rand, typ int, n int) []byte {
+	if n > 2000 {
+		return bytes.Repeat([]byte{byte('A' + r.Intn(26))}, n)
+	}
 	if typ == 1 {
 		return c29Text(r, n)
 	}
@@ -104,15 +107,15 @@ func c30Size(r *rand.Rand, wbs int, big bool) int {
 		if n < 0 {
 			n = 0
 		}
-		if n > 9000 {
-			n = 9000
+		if n > 700 {
+			n = 700 // sizes relative to large buffers are covered by the rare `big` cases and the corpus
 		}
 		return n
 	case 5:
 		if big {
-			return []int{65535, 65536, 65537, 70000}[r.Intn(4)]
+			return []int{65535, 65536, 65537, 8221, 8222}[r.Intn(5)]
 		}
-		return 300 + r.Intn(300)
+		return 126 + r.Intn(300)
 	default:
 		return r.Intn(40)
 	}
@@ -121,7 +124,7 @@ func c30Size(r *rand.Rand, wbs int, big bool) int {
 func c30GenOps(r *rand.Rand, server bool, wbs int) []c30Op {
 	n := 1 + r.Intn(5)
 	ops := make([]c30Op, 0, n+1)
-	big := r.Intn(30) == 0
+	big := r.Intn(60) == 0 && wbs >= 4096 // with small buffers a 64K message is thousands of frames
 	for i := 0; i < n; i++ {
 		typ := 1 + r.Intn(2)
 		switch r.Intn(12) {
@@ -163,7 +166,7 @@ func c30GenOps(r *rand.Rand, server bool, wbs int) []c30Op {
 				ops = append(ops, c30Op{Kind: "stream", Typ: ct, Chunks: []c30Chunk{{Kind: "write", Data: p}}})
 			}
 		case 9:
-			ops = append(ops, c30Op{Kind: "prepared", Typ: typ, Data: c30Bytes(r, typ, []int{0, 5, 125, 126, 4095, 4096, 4097, 8300}[r.Intn(8)])})
+			ops = append(ops, c30Op{Kind: "prepared", Typ: typ, Data: c30Bytes(r, typ, []int{0, 5, 125, 126, 300, 300, 4095, 4096, 4097}[r.Intn(9)])})
 		case 10:
 			ops = append(ops, c30Op{Kind: []string{"message", "control", "stream"}[r.Intn(3)], Typ: []int{0, 3, 7, 11, -1 & 0xf}[r.Intn(5)], Data: []byte("x")})
 		default:
@@ -230,7 +233,7 @@ func c30Exec(c *Conn, op *c30Op) {
 func c30OpCoq(op c30Op) string {
 	switch op.Kind {
 	case "message":
-		return vApp("OpMessage", vN(uint64(op.Typ)), vBytes(op.Data))
+		return vApp("OpMessage", vN(uint64(op.Typ)), c29Term(op.Data))
 	case "control":
 		return vApp("OpControl", vN(uint64(op.Typ)), vBytes(op.Data))
 	case "prepared":
@@ -238,12 +241,12 @@ func c30OpCoq(op c30Op) string {
 		for i, k := range op.PKeys {
 			ks[i] = vBytes(k)
 		}
-		return vApp("OpPrepared", vN(uint64(op.Typ)), vBytes(op.Data), vList(ks))
+		return vApp("OpPrepared", vN(uint64(op.Typ)), c29Term(op.Data), vList(ks))
 	}
 	cs := make([]string, len(op.Chunks))
 	for i, ch := range op.Chunks {
 		ctor := map[string]string{"write": "CWrite", "string": "CString", "readfrom": "CReadFrom"}[ch.Kind]
-		cs[i] = vApp(ctor, vBytes(ch.Data))
+		cs[i] = vApp(ctor, c29Term(ch.Data))
 	}
 	return vApp("OpStream", vN(uint64(op.Typ)), vList(cs))
 }
@@ -266,12 +269,14 @@ func TestVerifC30(t *testing.T) {
 		{true, 16, []c30Op{{Kind: "stream", Typ: 2, Chunks: []c30Chunk{{Kind: "readfrom", Data: bytes.Repeat([]byte("r"), 16)}}}}, "readfrom-exact-buffer"},
 		{true, 16, []c30Op{{Kind: "stream", Typ: 2, Chunks: []c30Chunk{{Kind: "write", Data: []byte("ab")}, {Kind: "write", Data: bytes.Repeat([]byte("L"), 61)}}}}, "bypass-with-buffered"},
 		{true, 4096, []c30Op{{Kind: "message", Typ: 2, Data: bytes.Repeat([]byte("m"), 65536)}}, "server-64k"},
+		{false, 4096, []c30Op{{Kind: "message", Typ: 2, Data: bytes.Repeat([]byte("m"), 65536)}}, "client-64k"},
+		{true, 4096, []c30Op{{Kind: "stream", Typ: 2, Chunks: []c30Chunk{{Kind: "write", Data: bytes.Repeat([]byte("b"), 65535)}}}}, "server-64k-bypass"},
 		{false, 4096, []c30Op{{Kind: "prepared", Typ: 1, Data: bytes.Repeat([]byte("p"), 5000)}}, "client-prepared-5000"},
 		{true, 4096, []c30Op{{Kind: "control", Typ: 9, Data: bytes.Repeat([]byte("c"), 125)}, {Kind: "control", Typ: 9, Data: bytes.Repeat([]byte("c"), 126)}}, "ping-125-126"},
 		{true, 4096, []c30Op{{Kind: "control", Typ: 8, Data: []byte{3, 232, 'o', 'k'}}, {Kind: "message", Typ: 2, Data: hello}}, "close-then-write"},
 		{false, 4096, []c30Op{{Kind: "message", Typ: 0, Data: hello}, {Kind: "message", Typ: 2, Data: nil}}, "bad-type-empty"},
 	}
-	wbsPool := []int{1, 2, 3, 16, 111, 125, 126, 200, 1024, 4096}
+	wbsPool := []int{1, 2, 3, 16, 16, 50, 111, 125, 126, 200, 200, 4096}
 	for i := 0; i < w.N; i++ {
 		if !w.Want(i) {
 			continue
@@ -335,13 +340,17 @@ func TestVerifC30(t *testing.T) {
 		}
 		rt := make([]string, len(read))
 		for k, e := range read {
-			rt[k] = e.coq()
+			if e.Kind == "msg" {
+				rt[k] = vApp("Msg", vN(uint64(e.Op)), c29Term(e.Data))
+			} else {
+				rt[k] = e.coq()
+			}
 		}
 		if !wellFormed || !wok {
 			rt = append(rt, "(Err EPanic)")
 			class += "/malformed"
 		}
-		term := vApp("mkCase", vApp("mkWcfg", vBool(server), vN(uint64(wbs+maxFrameHeaderSize))), vList(kt), vList(ot), vBytes(wire), vList(et), vList(rt))
+		term := vApp("mkCase", vApp("mkWcfg", vBool(server), vN(uint64(wbs+maxFrameHeaderSize))), vList(kt), vList(ot), c29Term(wire), vList(et), vList(rt))
 		role := "client"
 		if server {
 			role = "server"
